@@ -13,8 +13,8 @@ use std::fmt::Debug;
 use std::panic::{catch_unwind, AssertUnwindSafe};
 
 /// everything the derived impls of the library's types ask of the group-assignment parameter
-pub trait Impl: BlsSignatureImpl + PartialEq + Eq + Debug + Clone + Serialize + DeserializeOwned + 'static {}
-impl<T: BlsSignatureImpl + PartialEq + Eq + Debug + Clone + Serialize + DeserializeOwned + 'static> Impl for T {}
+pub trait Impl: BlsSignatureImpl + PartialEq + Eq + Debug + Clone + Default + Serialize + DeserializeOwned + 'static {}
+impl<T: BlsSignatureImpl + PartialEq + Eq + Debug + Clone + Default + Serialize + DeserializeOwned + 'static> Impl for T {}
 
 /// the byte-conversion API every type offers (macros.rs impl_from_derivatives*)
 pub trait ByteConv: Sized {
@@ -975,6 +975,66 @@ fn iszero_vector<C: Impl>(v: &Value, conc: &Conc) -> Outcome {
     o
 }
 
+/// `T::default()` through serde, the byte conversions and every consumer
+fn default_vector<C: Impl>(v: &Value, conc: &Conc, tables: &Tables) -> Outcome {
+    let lib = Lib { conc, tables };
+    let sk5 = lib.sk::<C>(5);
+    let pk5 = sk5.public_key();
+    let tname = gets(v, "type");
+    let bytes_ok = gets(&v["expect"], "bytes") == "Ok";
+    macro_rules! d {
+        ($name:expr, $t:ty) => {
+            if tname == $name {
+                let val: $t = Default::default();
+                let mut o = Outcome::pass(json!({}));
+                match roundtrip(&val, bytes_ok) {
+                    Ok((n, _)) => o.extra += n,
+                    Err(e) => return Outcome::fail(json!({"type": tname}), format!("default value: {e}")),
+                }
+                if <$t as ByteConv>::HAS_BYTES && !bytes_ok {
+                    if let Ok(Ok(_)) = guard(|| <$t as ByteConv>::dec(&val.enc())) {
+                        return Outcome::fail(json!({"type": tname}), "the byte conversion imports the default (zero) secret");
+                    }
+                }
+                match catch_unwind(AssertUnwindSafe(|| consume_any(&val as &dyn std::any::Any, &lib, &sk5, &pk5))) {
+                    Err(_) => {
+                        let mut f = Outcome::fail(json!({"type": tname}), "a consumer of the default value aborted (panic)");
+                        f.notes.push("abort".into());
+                        return f;
+                    }
+                    Ok(_) => o.extra += 1,
+                }
+                return o;
+            }
+        };
+    }
+    d!("SecretKey", SecretKey<C>);
+    d!("SecretKeyEnum", SecretKeyEnum);
+    d!("PublicKey", PublicKey<C>);
+    d!("MultiPublicKey", MultiPublicKey<C>);
+    d!("ProofOfPossession", ProofOfPossession<C>);
+    d!("Signature", Signature<C>);
+    d!("AggregateSignature", AggregateSignature<C>);
+    d!("MultiSignature", MultiSignature<C>);
+    d!("ProofCommitment", ProofCommitment<C>);
+    d!("ProofCommitmentSecret", ProofCommitmentSecret<C>);
+    d!("ProofCommitmentChallenge", ProofCommitmentChallenge<C>);
+    d!("ProofOfKnowledge", ProofOfKnowledge<C>);
+    d!("ProofOfKnowledgeTimestamp", ProofOfKnowledgeTimestamp<C>);
+    d!("SignatureShare", SignatureShare<C>);
+    d!("SignCryptCiphertext", SignCryptCiphertext<C>);
+    d!("SignCryptDecryptionKey", SignCryptDecryptionKey<C>);
+    d!("TimeCryptCiphertext", TimeCryptCiphertext<C>);
+    d!("ElGamalCiphertext", ElGamalCiphertext<C>);
+    d!("ElGamalProof", ElGamalProof<C>);
+    d!("ElGamalDecryptionKey", ElGamalDecryptionKey<C>);
+    d!("InnerPointShareG1", InnerPointShareG1);
+    d!("InnerPointShareG2", InnerPointShareG2);
+    d!("SignatureSchemes", SignatureSchemes);
+    d!("Bls12381", Bls12381);
+    Outcome::fail(json!({}), format!("no default for {tname}"))
+}
+
 pub fn run<C, R>(v: &Value, conc: &Conc, tables: &Tables, group: &str) -> Outcome
 where
     C: Impl,
@@ -982,6 +1042,9 @@ where
 {
     if gets(v, "act") == "IsZero" {
         return iszero_vector::<C>(v, conc);
+    }
+    if gets(v, "act") == "Default" {
+        return default_vector::<C>(v, conc, tables);
     }
     let lib = Lib { conc, tables };
     let tname = gets(v, "type");
